@@ -75,7 +75,72 @@ impl<'a> G<'a> {
         if d == 0 {
             return if !ints.is_empty() && self.r.chance(1, 2) { self.r.pick(&ints).clone() } else { self.lit() };
         }
-        match self.r.below(22) {
+        match self.r.below(30) {
+            22 => {
+                // string interpolation, then the byte length of the result
+                self.feat("string-interpolation");
+                let words = ["a", "xy", "quiver", ""];
+                let w1 = *self.r.pick(&words);
+                let w2 = *self.r.pick(&words);
+                let inner = if self.r.chance(1, 2) { format!("\"{w2}\"") } else { format!("{} {{ | =0 => \"z\" | \"{w2}\" }}", self.int(d - 1)) };
+                format!("\"{w1}{{{inner}}}!\" {{ =Str[sb] => sb __binary_length__ }}")
+            }
+            23 => {
+                // callable in a tuple field is called with the flowing value
+                let f1 = self.vars_of(&Kind::FnInt);
+                if f1.is_empty() {
+                    self.lit()
+                } else {
+                    self.feat("field-call");
+                    let f = self.r.pick(&f1).clone();
+                    format!("{} [{f}, {}] __integer_add__", self.int(d - 1), self.int(d - 1))
+                }
+            }
+            24 => {
+                // alternation whose alternatives bind the same variable
+                self.feat("alternation-binding");
+                let a = self.int(d - 1);
+                let (k1, k2) = (self.r.range(0, 2), self.r.range(3, 5));
+                let e = self.int(d - 1);
+                format!("{a} {{ | ={k1} => L[{}] | ={k2} => M[{}] | R }} {{ | =(L[r] | M[r]) => [r, 1] __integer_add__ | =R => {e} }}", self.int(d - 1), self.int(d - 1))
+            }
+            25 => {
+                // named partial / named star patterns
+                self.feat("partial-star");
+                let (a, b2, c) = (self.int(d - 1), self.int(d - 1), self.int(d - 1));
+                match self.r.below(3) {
+                    0 => format!("Q[x: {a}, y: {b2}, z: {c}] {{ =Q(y: py) => py | 0 }}"),
+                    1 => format!("Q[x: {a}, y: {b2}, z: {c}] {{ =Q* => [x, [y, z] __integer_add__] __integer_add__ | 0 }}"),
+                    _ => format!("{{ ta = A[x: {a}, y: {b2}], tb = [z: {c}], [...ta, ...tb] {{ =(x, z) => [x, z] __integer_add__ | 0 }} | 0 }}"),
+                }
+            }
+            26 => {
+                // three levels of destructuring, guard after the pattern in a condition
+                self.feat("deep-destructure");
+                let (a, b2, c, e) = (self.int(d - 1), self.int(d - 1), self.int(d - 1), self.int(d - 1));
+                match self.r.below(2) {
+                    0 => format!("[{a}, [{b2}, [{c}, {e}]]] {{ =[da, [db, [dc, dd]]] => [[da, db] __integer_add__, [dc, dd] __integer_add__] __integer_add__ | 0 }}"),
+                    _ => format!("[{a}, {b2}] {{ | =[ga, gb] [ga, gb] __integer_compare__ =1 => ga | =[_, gb] => gb }}"),
+                }
+            }
+            27 => {
+                // closure calling a closure, both capturing
+                self.feat("closure-chain");
+                let (k, a) = (self.int(d - 1), self.int(d - 1));
+                format!("{{ ck = {k}, cg = #'int {{ [~, ck] __integer_add__ }}, ch = #'int {{ [~ cg, ck] __integer_multiply__ }}, {a} ch cg | 0 }}")
+            }
+            28 => {
+                // nested labelled tuples and chained field access
+                self.feat("nested-field-access");
+                let (a, b2, c) = (self.int(d - 1), self.int(d - 1), self.int(d - 1));
+                format!("{{ nt = [a: {a}, b: [c: {b2}, d: {c}]], [nt.b.d, nt.a] __integer_subtract__ | 0 }}")
+            }
+            29 => {
+                // ripple into a nested tuple, then destructure
+                self.feat("ripple-nested");
+                let a = self.int(d - 1);
+                format!("{a} [~, [~, {}] __integer_add__] {{ =[rp, rq] => [rp, rq] __integer_multiply__ }}", self.lit())
+            }
             0 | 1 => self.lit(),
             2 | 3 => {
                 if ints.is_empty() {
@@ -140,7 +205,9 @@ impl<'a> G<'a> {
     fn maybe(&mut self, d: usize) -> String {
         self.feat("maybe");
         let a = self.int(d.saturating_sub(1));
-        match self.r.below(5) {
+        match self.r.below(7) {
+            5 => format!("{a} {{ | ={} => [] | {} }}", self.lit(), self.int(d.saturating_sub(1))),
+            6 => format!("{a} {{ =('int)mm [mm, {}] __integer_compare__ =1 => [mm, 1] __integer_add__ {{ ={} => [] | ~ }} }}", self.lit(), self.lit()),
             0 => format!("{a} {{ ={} => {} }}", self.lit(), self.int(d.saturating_sub(1))),
             1 => {
                 let v = self.fresh("m");
@@ -522,6 +589,60 @@ impl<'a> G<'a> {
             ],
         }
     }
+}
+
+/// A REPL session: a line of bindings, then lines that use them (and `@N` process references).
+pub fn session(r: &mut Rng, ev: &mut Ev) -> Vec<String> {
+    let mut g = G { r, vars: vec![], next: 0, param: None, feats: vec![] };
+    g.feat("session");
+    let mut lines = vec![];
+    // line 1: function definitions and value bindings
+    let mut first: Vec<String> = g.functions();
+    let nb = 1 + g.r.usize(3);
+    for _ in 0..nb {
+        let v = g.fresh("s");
+        let dd = 1 + g.r.usize(2);
+        let e = g.int(dd);
+        first.push(format!("{v} = {e}"));
+        g.vars.push(Var { name: v, kind: Kind::Int });
+    }
+    if g.r.chance(1, 2) {
+        let v = g.fresh("st");
+        first.push(format!("{v} = [{}, {}]", g.int(1), g.int(1)));
+        g.vars.push(Var { name: v, kind: Kind::Tup(2) });
+    }
+    let with_proc = g.r.chance(1, 2);
+    lines.push(first.join(", "));
+    if with_proc {
+        g.feat("session-process");
+        lines.push("@#{ !#'int =v, [v, 1] __integer_add__ }".to_string());
+    }
+    // continuation lines
+    let nl = 1 + g.r.usize(3);
+    for _ in 0..nl {
+        let d = 1 + g.r.usize(3);
+        match g.r.below(4) {
+            0 => {
+                let v = g.fresh("s");
+                let e = g.int(d);
+                lines.push(format!("{v} = {e}"));
+                g.vars.push(Var { name: v, kind: Kind::Int });
+            }
+            1 => {
+                // the previous result flows into the line
+                lines.push(format!("{{ =('int)pr => [pr, {}] __integer_add__ | {} }}", g.int(d), g.int(d)));
+            }
+            _ => lines.push(g.int(d)),
+        }
+    }
+    if with_proc {
+        lines.push(format!("{} @1", g.int(1)));
+        lines.push("!@1".to_string());
+    }
+    for f in &g.feats {
+        ev.hit(&format!("gen:{f}"));
+    }
+    lines
 }
 
 /// One program. Records the constructs used as `gen:<feature>` counters.
